@@ -239,7 +239,7 @@ def props_of(conj, sig, group):
     kind = sig.get('kind', '-')
     op = sig.get('op', '-')
     ps = set()
-    if kind in ('hostiledir', 'rootops'):
+    if kind in ('hostiledir', 'rootops', 'ahostile'):
         ps.add('C13')
         return ps
     if kind == 'confine':
